@@ -165,18 +165,62 @@ pub fn build_woff(flavor: u32, tables: &[(String, Vec<u8>)], compress: &[bool]) 
 
 /// WOFF2 file with null transforms (glyf / loca carry transform version 3)
 pub fn build_woff2_null(flavor: u32, tables: &[(String, Vec<u8>)]) -> Vec<u8> {
+    build_woff2(flavor, tables, None)
+}
+
+/// WOFF2 file whose hmtx table is stored with transform version 1 (flag byte `flags`: bit 0 / bit 1 set = the lsb
+/// array of the long metrics / the trailing leftSideBearing array is left out, to be taken from the glyphs' xMin)
+/// while glyf / loca keep the null transform - the directory flag combination an encoder does not write but a
+/// file may carry.  None when the font has no hhea / maxp / hmtx to take the counts from.
+pub fn build_woff2_hmtx(flavor: u32, tables: &[(String, Vec<u8>)], flags: u8) -> Option<Vec<u8>> {
+    let get = |t: &str| tables.iter().find(|x| x.0 == t).map(|x| &x.1);
+    let nh = be16(get("hhea")?, 34)? as usize;
+    let ng = be16(get("maxp")?, 4)? as usize;
+    let hmtx = get("hmtx")?;
+    if nh == 0 || nh > ng || hmtx.len() < 4 * nh + 2 * (ng - nh) {
+        return None;
+    }
+    let mut x = vec![flags];
+    for k in 0..nh {
+        x.extend_from_slice(&hmtx[4 * k..4 * k + 2]);
+    }
+    if flags & 1 == 0 {
+        for k in 0..nh {
+            x.extend_from_slice(&hmtx[4 * k + 2..4 * k + 4]);
+        }
+    }
+    if flags & 2 == 0 {
+        x.extend_from_slice(&hmtx[4 * nh..4 * nh + 2 * (ng - nh)]);
+    }
+    Some(build_woff2(flavor, tables, Some(x)))
+}
+
+fn build_woff2(flavor: u32, tables: &[(String, Vec<u8>)], xhmtx: Option<Vec<u8>>) -> Vec<u8> {
     let mut dir = Vec::new();
     let mut block = Vec::new();
     let mut total = 12 + 16 * tables.len();
     for (tag, d) in tables {
         let idx = KNOWN_TAGS.iter().position(|t| t == tag).unwrap_or(63) as u8;
-        let ver: u8 = if tag == "glyf" || tag == "loca" { 3 } else { 0 };
+        let transformed = if tag == "hmtx" { xhmtx.as_ref() } else { None };
+        let ver: u8 = if tag == "glyf" || tag == "loca" {
+            3
+        } else if transformed.is_some() {
+            1
+        } else {
+            0
+        };
         dir.push(idx | (ver << 6));
         if idx == 63 {
             dir.extend(tag.bytes());
         }
         dir.extend(b128(d.len() as u32));
-        block.extend_from_slice(d);
+        match transformed {
+            Some(x) => {
+                dir.extend(b128(x.len() as u32));
+                block.extend_from_slice(x);
+            }
+            None => block.extend_from_slice(d),
+        }
         total += (d.len() + 3) & !3;
     }
     woff2_file(flavor, tables.len() as u16, &dir, &brotli_stored(&block), total as u32)
